@@ -12,7 +12,7 @@ from mc import common, ref
 PROP = 'C15'
 LEVEL = 'exploration'
 RULE = ('all strings over the 8 canonical characters up to length 4 (each converted twice, the first result overwritten in place in between), every alias character alone, all pairs over the 25 alias characters and every alias inside a longer string; all (signals, patterns) '
-        'arrays with signals*patterns <= 4 over the 8 values; structured fills (every position takes every value over two '
+        'arrays with signals*patterns <= 4 over the 8 values (a conversion with a pattern count that is not a multiple of 8 follows one of the full padded shape); structured fills (every position takes every value over two '
         'backgrounds) for shapes up to (3,17), (2,3,9) and 1-D; pattern counts 1..17; unpackbits/packbits for all 8- and '
         '16-bit values of every integer dtype and walking/two-bit/boundary patterns for 32/64 bit; popcount on all bytes '
         'and arrays; distinct_nontrivial = distinct (function, input) signatures')
@@ -156,6 +156,11 @@ def _roundtrip(lg, res, task, a, tag):
     """mv -> bp -> mv, bp layout, padding, strings for ndim <= 2"""
     res.evals += 1
     n = a.shape[-1]
+    if a.ndim > 1 and n % 8:
+        # the previous conversion in this process had the same padded shape, more patterns and no zero anywhere:
+        # padding lanes of the next result read as 0 all the same
+        lg.mv_to_bp(np.full(a.shape[:-1] + (n + 8 - n % 8,), 7, dtype=np.uint8))
+        res.count('conversions_after_fuller_one')
     bp = lg.mv_to_bp(a)
     a2 = a if a.ndim > 1 else a[:, np.newaxis]     # documented: a 1-D vector is one pattern
     n2 = a2.shape[-1]
